@@ -102,4 +102,10 @@ CHECKS = {
         "text": "Caching1D/2D/3D with recording wrapped functions: every history value must equal the value from a fresh cache (they are bit-identical on the repaired tree), nodes are read off the call log, node values / multilinear reproduction / curvature bound are checked on a lattice of 120+9+4 geometries incl. areas far from the origin, with and without function boundaries and no_boundary_error.",
         "note": "The call log is not an oracle; points within 1.5e-7 outside an edge may evaluate or raise but history-independently; node tolerance grows with prod N^3 in 3-D (documented algorithm).",
     },
+    "C10": {
+        "engine": "L",
+        "technique": "bounded-exhaustive enumeration of grids (1..3 cells per axis, unequal sizes, inner radius, periods) x all masks (<= 8 cells) x all set partitions into <= 3 sources with holes (<= 6 cells) x steps x transforms x a ray family (lattice origins x 26 lattice directions + tangential / edge / corner / in-plane rays), compared with an exact chord-length reference",
+        "text": "The reference (mc/refs/chords.py, no cherab/raysect import) clips the ray against every cell (slab clipping for boxes; ray-cylinder / plane / half-plane events for (R,phi,Z) grids) with lo/hi bounds from cells shrunk/grown by 5e-9 m, and is cross-checked against a closed-form annulus chord in every cylinder case. Oracles: entries sum to the chord, per-cell entry within two integration steps, masked / -1 cells exactly zero and bins = max+1, merged-map entry = sum of its cells' identity-map entries (1e-12), periodic images give the same vector, no exception for rays inside the primitive; pipelines 0D/2D reproduce the direct trace.",
+        "note": "raysect displaces each pass start by EPSILON=1e-9 m (sum tolerance 4e-9 + 1e-12 scale); passes shorter than 0.1 step may be skipped by the documented algorithm; Ray(extinction_prob=0) because Russian roulette is random; the literal two-step bound is exceeded for cells crossed in k>2 disjoint intervals on periodic grids (listed known finding, bound k steps enforced there).",
+    },
 }
